@@ -331,3 +331,71 @@ package dispatcher
 //@ typeinv Dispatcher dispatcherWF New
 //@ func New(cdc, sb, logger, forwardingHandler, actionHandler) (result, err)
 //@   ensures[C11,C14,C17] err == nil ==> result != nil && dispatcherWF(result)
+
+// ---------------------------------------------------------------------------------------------
+// Listings by protocol (C13): what orbiter contributes to a paginated listing. The enumeration itself is
+// the SDK's paginator (its arguments and results are recorded in the ghosts pg_*/opt_*, specs/31-pagination.spec);
+// proved here: each listing enumerates the right collection or index, restricted to the requested protocol,
+// with the caller's page request, exactly once, and returns the paginator's answer unaltered.
+// ---------------------------------------------------------------------------------------------
+//@ macro pagedOnce() = pg_n == old(pg_n) + 1 && opt_n == old(opt_n) + 1
+
+//@ func (d *Dispatcher) GetDispatchedAmountsBySourceProtocolID(ctx, protocolID, pagination) (amounts, pageRes, err)
+//@   requires[inv] d != nil
+//@   modifies pg_n, pg_coll, pg_req, pg_res, pg_page, opt_n, opt_prefix
+//@   ensures[C13] pagedOnce() && pg_coll == d.dispatchedAmounts && pg_req == pagination && opt_prefix == protocolID
+//@   ensures[C13] err == nil ==> amounts == pg_res && pageRes == pg_page
+
+//@ func (d *Dispatcher) GetDispatchedAmountsByDestinationProtocolID(ctx, protocolID, pagination) (amounts, pageRes, err)
+//@   requires[inv] d != nil && d.dispatchedAmounts != nil
+//@   modifies pg_n, pg_coll, pg_req, pg_res, pg_page, opt_n, opt_prefix
+//@   ensures[C13] pagedOnce() && pg_coll == d.dispatchedAmounts.Indexes.ByDestinationProtocolID && pg_req == pagination && opt_prefix == protocolID
+//@   ensures[C13] err == nil ==> amounts == pg_res && pageRes == pg_page
+
+//@ func (d *Dispatcher) GetDispatchedCountsBySourceProtocolID(ctx, id, pagination) (counts, pageRes, err)
+//@   requires[inv] d != nil
+//@   modifies pg_n, pg_coll, pg_req, pg_res, pg_page, opt_n, opt_prefix
+//@   ensures[C13] pagedOnce() && pg_coll == d.dispatchedCounts && pg_req == pagination && opt_prefix == id
+//@   ensures[C13] err == nil ==> counts == pg_res && pageRes == pg_page
+
+//@ func (d *Dispatcher) GetDispatchedCountsByDestinationProtocolID(ctx, id, pagination) (counts, pageRes, err)
+//@   requires[inv] d != nil && d.dispatchedCounts != nil
+//@   modifies pg_n, pg_coll, pg_req, pg_res, pg_page, opt_n, opt_prefix
+//@   ensures[C13] pagedOnce() && pg_coll == d.dispatchedCounts.Indexes.ByDestinationProtocolID && pg_req == pagination && opt_prefix == id
+//@   ensures[C13] err == nil ==> counts == pg_res && pageRes == pg_page
+
+// The query handlers: a successful answer is the paginator's answer for the requested protocol over the right
+// collection, and the page request that reached the paginator is the client's: same key, offset, count-total
+// and reverse flag; the limit may only be lowered (a server-side cap keeps every page within the size asked for).
+//@ macro pageReqFaithful(p, r) = (r == nil ==> p == nil) && (r != nil ==> p != nil && p.Key == r.Key && p.Offset == r.Offset && p.CountTotal == r.CountTotal && p.Reverse == r.Reverse &&
+//@                                (r.Limit == 0 || (p.Limit != 0 && p.Limit <= r.Limit)))
+//@ macro listed(q, req, coll) = req != nil && pagedOnce() && pg_coll == coll && opt_prefix == protoByName(req.ProtocolId) && protoNameOK(req.ProtocolId)
+//@ macro sameReq(req) = pageReqFaithful(ptrto(pg_req, "*query.PageRequest"), req.Pagination)
+
+//@ func (q queryServer) DispatchedAmountsBySourceProtocolID(ctx, req) (resp, err)
+//@   requires[inv] q.Dispatcher != nil
+//@   modifies pg_n, pg_coll, pg_req, pg_res, pg_page, opt_n, opt_prefix
+//@   ensures[C13] err == nil ==> listed(q, req, q.Dispatcher.dispatchedAmounts)
+//@   ensures[C13] err == nil ==> sameReq(req)
+//@   ensures[C13] err == nil ==> resp != nil && resp.Amounts == pg_res && resp.Pagination == pg_page
+
+//@ func (q queryServer) DispatchedAmountsByDestinationProtocolID(ctx, req) (resp, err)
+//@   requires[inv] q.Dispatcher != nil && q.Dispatcher.dispatchedAmounts != nil
+//@   modifies pg_n, pg_coll, pg_req, pg_res, pg_page, opt_n, opt_prefix
+//@   ensures[C13] err == nil ==> listed(q, req, q.Dispatcher.dispatchedAmounts.Indexes.ByDestinationProtocolID)
+//@   ensures[C13] err == nil ==> sameReq(req)
+//@   ensures[C13] err == nil ==> resp != nil && resp.Amounts == pg_res && resp.Pagination == pg_page
+
+//@ func (q queryServer) DispatchedCountsBySourceProtocolID(ctx, req) (resp, err)
+//@   requires[inv] q.Dispatcher != nil
+//@   modifies pg_n, pg_coll, pg_req, pg_res, pg_page, opt_n, opt_prefix
+//@   ensures[C13] err == nil ==> listed(q, req, q.Dispatcher.dispatchedCounts)
+//@   ensures[C13] err == nil ==> sameReq(req)
+//@   ensures[C13] err == nil ==> resp != nil && resp.Counts == pg_res && resp.Pagination == pg_page
+
+//@ func (q queryServer) DispatchedCountsByDestinationProtocolID(ctx, req) (resp, err)
+//@   requires[inv] q.Dispatcher != nil && q.Dispatcher.dispatchedCounts != nil
+//@   modifies pg_n, pg_coll, pg_req, pg_res, pg_page, opt_n, opt_prefix
+//@   ensures[C13] err == nil ==> listed(q, req, q.Dispatcher.dispatchedCounts.Indexes.ByDestinationProtocolID)
+//@   ensures[C13] err == nil ==> sameReq(req)
+//@   ensures[C13] err == nil ==> resp != nil && resp.Counts == pg_res && resp.Pagination == pg_page
